@@ -146,7 +146,15 @@ def _objects(case, store, repo_dir):
     return out
 
 
+def _fsnorm(p):
+    return os.fsdecode(os.fsencode(p))
+
+
 def _run(case, work):
+    # use the spelling the file system reports (escaped bytes that happen to form valid UTF-8 come back as that character)
+    case = dict(case, files=[dict(f, path=_fsnorm(f['path'])) for f in case['files']],
+                symlinks=[dict(x, path=_fsnorm(x['path']), target=_fsnorm(x['target'])) for x in case['symlinks']],
+                args=[_fsnorm(a) for a in case['args']], target=[dict(t, path=_fsnorm(t['path'])) for t in case['target']])
     src, tgt, repo_dir = os.path.join(work, 'src'), os.path.join(work, 'tgt'), os.path.join(work, 'repo')
     os.makedirs(src), os.makedirs(tgt), os.makedirs(repo_dir)
     world.write_tree(src, case['files'], case['symlinks'])
